@@ -1,4 +1,6 @@
 from __future__ import annotations
+
+import re
 import enum
 import typing
 import structlog
@@ -40,7 +42,8 @@ def get_formatter(format: Format) -> typing.Callable[[str], str]:
 
 
 def bool_to_int(expr: str) -> str:
-    return expr.replace("false", "0").replace("true", "1")
+    # Whole words only: a variable may be called is_true or xfalse
+    return re.sub(r"\btrue\b", "1", re.sub(r"\bfalse\b", "0", expr))
 
 
 class GotranCCodePrinter(C99CodePrinter):
@@ -57,7 +60,7 @@ class GotranCCodePrinter(C99CodePrinter):
             set(self.reserved_words)
             | functions
             | set(self.math_macros.values())
-            | {"pow", "fmod"}
+            | {"pow", "fmod", "true", "false"}
         )
 
     def _print_Float(self, flt):
